@@ -339,7 +339,7 @@ def run(tier, seed, t0):
     for nm_, fn in (("c13_router", router), ("c13_filter", filter_layer)):
         try:
             fn(e3)
-        except (sym.Unsupported, KeyError, IndexError) as ex:
+        except _e3.ENC_ERRORS as ex:
             e3.error(nm_, "MIR->SMT encoding of the router layer", ex)
     obs = list(e3.res.obligations)
     obs += kani.run_group("util", HARNESSES, tier, hooks=True)
